@@ -773,7 +773,7 @@ fn is_block_string_value(s: &str) -> bool {
             .any(|line| !is_blank(line) && !line.starts_with([' ', '\t']))
 }
 
-fn write_input_value(sdl: &mut String, input_value: &MetaInputValue) {
+pub(super) fn write_input_value(sdl: &mut String, input_value: &MetaInputValue) {
     if let Some(default_value) = &input_value.default_value {
         _ = write!(
             sdl,
